@@ -346,8 +346,17 @@ impl<T: MessageType> MessageEncoder<T> {
         conn_type: ConnectionType,
         config: &ServiceConfig,
     ) -> io::Result<()> {
+        // a 204 response (and an interim one) never has a body, whatever body the handler attached;
+        // 101 is left alone because the upgraded stream is sent as the "body"
+        let no_body_status = message.status().is_some_and(|status| {
+            matches!(
+                status,
+                StatusCode::CONTINUE | StatusCode::PROCESSING | StatusCode::NO_CONTENT
+            )
+        });
+
         // transfer encoding
-        if !head {
+        if !head && !no_body_status {
             self.te = match length {
                 BodySize::Sized(0) => TransferEncoding::empty(),
                 BodySize::Sized(len) => TransferEncoding::length(len),
